@@ -2,7 +2,7 @@
 Require Extraction.
 Require Import ExtrOcamlBasic.
 From Coq Require Import ZArith NArith List.
-Require Import Yui.Model.Link Yui.Model.Tng Yui.Model.TngCob Yui.Model.TngStack.
+Require Import Yui.Model.Link Yui.Model.Tng Yui.Model.TngCob Yui.Model.TngStack Yui.Model.TngComplex.
 Extraction Language OCaml.
 Extraction "../ocaml/gen/c01tng_model.ml"
   Z.add N.add Nat.add
@@ -20,4 +20,9 @@ Extraction "../ocaml/gen/c01tng_model.ml"
   TngStack.cc_eqb TngStack.cob_eqb TngStack.cob_src TngStack.cob_tgt TngStack.cob_cap_off TngStack.cob_is_stackable
   TngStack.take_stackable TngStack.stack_comps TngStack.cob_stack_fuel TngStack.cob_stack TngStack.cob_mul
   TngStack.lc_from_list TngStack.lc_add TngStack.lc_scale TngStack.lc_mul TngStack.cc_part_eval TngStack.cob_part_eval
-  TngStack.lc_part_eval TngStack.lc_is_invertible TngStack.lc_inv_first TngStack.lc_is_stackable.
+  TngStack.lc_part_eval TngStack.lc_is_invertible TngStack.lc_inv_first TngStack.lc_is_stackable
+  TngComplex.lc_connected TngComplex.lc_cap_off TngComplex.lc_inv TngComplex.lc_eval TngComplex.key_eqb TngComplex.key_add
+  TngComplex.key_push TngComplex.cpx_init TngComplex.cpx_dim TngComplex.cpx_h_range TngComplex.cpx_rank TngComplex.find_v
+  TngComplex.edge TngComplex.has_edge TngComplex.remove_vertex TngComplex.set_verts TngComplex.make_x TngComplex.cpx_connect
+  TngComplex.cpx_append TngComplex.contains_base_pt TngComplex.cpx_deloop TngComplex.cpx_eliminate
+  TngComplex.cpx_is_completely_delooped TngComplex.cpx_validate TngComplex.cpx_eval_edges TngComplex.cpx_dd_check.
